@@ -34,6 +34,7 @@ CONSTANTS Codes,      \* message codes explored by the bounded wire model (subse
           RPass,      \* passphrases of the bounded rpc model
           MaxHist,    \* length of operation histories of the bounded rpc model
           MaxLines,   \* maximal number of lines of PIV tool output in the bounded rpc model
+          BigResp,    \* BOOLEAN: the bounded wire model also asks for responses next to / above 16 MiB
           MaxConns,   \* maximal number of concurrent connections to one server in the bounded model (part 3)
           MaxCItems   \* maximal number of request frames per connection in part 3
 
@@ -64,6 +65,16 @@ WaitImmediate(w) == w >= 40                   \* Wait(w) returns at once for cod
 \* Part 1: items
 Item(k, c, l, b, a) == [k |-> k, code |-> c, len |-> l, body |-> b, aux |-> a]
 F(c, l, b, a) == Item("frame", c, l, b, a)
+\* Response sizes.  A forwarded request is answered with whatever the underlying agent answered; the size of that
+\* response is part of the input space (aux "r..." = the underlying agent answers this request with a response of a
+\* size of that class; the harness walks every size of the class): around the buffer sizes a framing layer is likely
+\* to use (4 KiB, 64 KiB: the sizes themselves, the sizes minus the 4-byte prefix, and their neighbours) and around
+\* the 16 MiB bound.  A response above the bound cannot be relayed: like a failing underlying agent ("rover").
+RespSizes == [a \in {"rtiny", "r4k", "r64k", "r16m", "rover"} |->
+  CASE a = "rtiny" -> {0, 1, 2, 5} [] a = "r4k" -> 4091..4098 [] a = "r64k" -> 65531..65540
+    [] a = "r16m" -> 16777212..16777216 [] OTHER -> {16777217}]
+RespAux == {"rtiny", "r4k", "r64k"} \cup (IF BigResp THEN {"r16m", "rover"} ELSE {})
+KillsUnderlying(it) == it.aux \in {"ufail", "rover"}
 FramesOf(c) ==
   CASE c \in StdNoArg -> {F(c, "1", "none", "none"), F(c, "n", "unknown", "none")}
     [] c \in StdArg   -> {F(c, "1", "none", "none"), F(c, "n", "valid", "none"), F(c, "n", "invalid", "none"), F(c, "n", "unknown", "none")}
@@ -74,6 +85,7 @@ FramesOf(c) ==
     [] c = 35         -> {F(c, "1", "none", "none"), F(c, "n", "valid", "imm"), F(c, "n", "valid", "pend"), F(c, "n", "unknown", "imm")}
     [] OTHER          -> {F(c, "1", "none", "none"), F(c, "n", "unknown", "none")}
                            \cup (IF Faults THEN {F(c, "n", "unknown", "ufail")} ELSE {})
+                           \cup {F(c, "n", "unknown", a) : a \in RespAux}
 NonTerm == UNION {FramesOf(c) : c \in Codes} \cup {F(-1, "0", "none", "none"), Item("oversize", -1, "big", "none", "none")}
 Term    == {Item("eof", -1, "none", "none", "none")}
            \cup {Item("tprefix", -1, n, "none", "none") : n \in {"p1", "p2", "p3"}}
@@ -82,7 +94,7 @@ Streams == {p \o <<t>> : p \in UNION {[1..n -> NonTerm] : n \in 0..(MaxItems - 1
 
 \* a complete frame whose body is well formed for its code: it must receive exactly one response
 WellFormed(it) ==
-  /\ it.k = "frame" /\ it.len # "0" /\ it.code \in AllCodes /\ it.aux # "ufail"
+  /\ it.k = "frame" /\ it.len # "0" /\ it.code \in AllCodes /\ ~KillsUnderlying(it)
   /\ LET d == DispatchOf[it.code] IN
      CASE d = "std"  -> \/ it.len = "1" /\ it.code \in StdNoArg
                         \/ it.len = "n" /\ it.body = "valid" /\ it.code \in StdArg
@@ -163,9 +175,15 @@ Outcomes(items, i, n, dead) ==
       [] it.k = "frame" ->
            IF WellFormed(it) /\ ~(dead /\ it.code \in AllCodes /\ DispatchOf[it.code] = "fwd")
            THEN Outcomes(items, i + 1, n + 1, dead)
-           ELSE Outcomes(items, i + 1, n + 1, dead \/ it.aux = "ufail") \cup {<<n, "err">>, <<n + 1, "err">>}
+           ELSE Outcomes(items, i + 1, n + 1, dead \/ KillsUnderlying(it)) \cup {<<n, "err">>, <<n + 1, "err">>}
       [] OTHER -> {}
 C12_Stream(items, nrep, st, pan, big) == ~pan /\ ~big /\ <<nrep, st>> \in Outcomes(items, 1, 0, FALSE)
+\* Responses whose content is known (a forwarded request that the underlying agent answers with a response of a given
+\* size) must arrive as intact frames with exactly that content, in request order.  SizedDue = how many of them are
+\* certainly due: those with nothing but well-formed frames in front of them (so that service cannot have ended).
+SizedDue(items) == Cardinality({i \in 1..Len(items) : /\ items[i].k = "frame" /\ items[i].aux \in DOMAIN RespSizes
+                                                     /\ \A j \in 1..i : items[j].k = "frame" /\ WellFormed(items[j])})
+C12_Sized(items, sizedok) == sizedok >= SizedDue(items)
 \* the design's runs end inside the allowed outcomes of their stream
 Inv_Stream == (status \in {"ok", "err"}) => C12_Stream(stream, Len(out), status, FALSE, FALSE)
 
